@@ -15,7 +15,8 @@ FUNCTIONS = ['uxarray.grid.connectivity._build_edge_face_connectivity',
     'uxarray.io._mpas._parse_edge_nodes@dual',
     'uxarray.grid.connectivity._populate_edge_face_connectivity',
     'uxarray.grid.connectivity._populate_node_face_connectivity',
-    'uxarray.grid.connectivity._populate_face_face_connectivity']
+    'uxarray.grid.connectivity._populate_face_face_connectivity',
+    'uxarray.grid.connectivity._build_face_face_connectivity']
 STANDINS = ["incidence"]
 ASSUMPTIONS = []
 EXPLANATION = "builders under contract + bounded stand-in"
